@@ -299,9 +299,249 @@ pub fn run(r: &Run) {
     r.assume("the timer fires only if the machine asked for it (StartDeferralTimer with a duration); the driver glue is mirrored, not executed: DeferFamilies -> start_deferral, FamilyDeferralComplete / EndDeferral -> end_deferral, as process_restarting_outputs does");
     r.assume("a peer that re-establishes with a family after having sent End-of-RIB for it, or after having been withdrawn, MAY block that family again (the statement does not fix it): such a peer never makes a release 'early' and keeps a held family from counting as 'stuck'");
     r.prop("event-sequences", r.tier.pick(200_000, 4_000_000), || arb_case(r.tier.pick(24, 60)), check);
+    r.assume(GLUE_RULE);
+    r.prop("daemon-glue", r.tier.pick(40_000, 1_000_000), || arb_case(r.tier.pick(24, 60)), check_glue);
 }
 
-pub fn replay(_sub: &str, case: &Value) -> Result<CheckResult, String> {
+pub fn replay(sub: &str, case: &Value) -> Result<CheckResult, String> {
     let c: Case = decode_case(case)?;
+    if sub == "daemon-glue" {
+        return Ok(check_glue(&c));
+    }
     Ok(check(&c))
+}
+
+// ---------------------------------------------------------------------------
+// the same event sequences through the daemon's own glue (DeferralRig): Global's
+// selection_deferral, PeerSession::process_effects, the spawned selection-deferral timer on
+// a paused clock, process_restarting_outputs and a TableManager; what is "announced" is
+// what an established neighbour session (a real PeerSession) puts on the wire.
+// ---------------------------------------------------------------------------
+
+pub const GLUE_RULE: &str = "daemon-glue: the same cases through the daemon's Global.selection_deferral + PeerSession::process_effects (GrSessionEstablished / GrEorReceived) + the spawned selection-deferral timer task (paused clock, advanced by the check) + \
+process_restarting_outputs + TableManager; observed: UPDATEs queued for an established eBGP neighbour session after every event, and after every event a probe route per deferred family (inserted, then removed) tells whether the family is still held. \
+Same reference blocker model; additionally the step that releases a family must announce exactly the prefixes present, once each, a held family announces nothing, and a released family is never held again";
+
+fn probe_net(fam: usize) -> packet::Nlri {
+    match fam {
+        0 => v4(10, 250, 0, 0, 16),
+        1 => packet::Nlri::V6(packet::bgp::Ipv6Net { addr: "2001:db8:fa00::".parse().unwrap(), mask: 48 }),
+        _ => packet::Nlri::VpnV4(packet::vpn::VpnV4Nlri { labels: packet::mpls::MplsLabelStack::new(vec![packet::mpls::MplsLabel::new(100)]), rd: packet::rd::RouteDistinguisher::TwoOctetAs { admin: 65000, assigned: 1 }, prefix: packet::bgp::Ipv4Net { addr: Ipv4Addr::new(10, 250, 0, 0), mask: 16 } }),
+    }
+}
+
+type Wire = (BTreeMap<(usize, String), usize>, BTreeSet<(usize, String)>);
+
+async fn pump(obs: &mut crate::event::verif::Neighbor) -> Wire {
+    let mut reach: BTreeMap<(usize, String), usize> = BTreeMap::new();
+    let mut unreach = BTreeSet::new();
+    obs.deliver(100_000).await;
+    for m in obs.flush() {
+        match m {
+            packet::bgp::Message::Update(packet::bgp::Update::Reach { family, entries, .. }) => {
+                for e in entries {
+                    *reach.entry((fam_idx(family), e.nlri.to_string())).or_default() += 1;
+                }
+            }
+            packet::bgp::Message::Update(packet::bgp::Update::Unreach { family, entries }) => {
+                for e in entries {
+                    unreach.insert((fam_idx(family), e.nlri.to_string()));
+                }
+            }
+            _ => {}
+        }
+    }
+    (reach, unreach)
+}
+
+pub fn check_glue(c: &Case) -> CheckResult {
+    let rt = tokio::runtime::Builder::new_current_thread().enable_time().start_paused(true).build().map_err(|e| Failure::new("harness", e.to_string()))?;
+    rt.block_on(glue(c))
+}
+
+async fn glue(c: &Case) -> CheckResult {
+    use crate::event::verif::{DeferralRig, Neighbor, NeighborParams};
+    let npeer = c.cfg.len().min(4);
+    let cfg: Vec<BTreeSet<usize>> = c.cfg.iter().take(npeer).map(|m| (0..3).filter(|i| m & (1 << i) != 0).collect()).collect();
+    let gr_peers: FnvHashMap<IpAddr, Vec<packet::Family>> = cfg.iter().enumerate().filter(|(_, s)| !s.is_empty()).map(|(p, s)| (paddr(p as u8), s.iter().map(|i| FAMS[*i]).collect())).collect();
+    let deferred: BTreeSet<usize> = cfg.iter().flatten().copied().collect();
+    let peers: Vec<IpAddr> = (0..4).map(paddr).collect();
+    let mut rig = DeferralRig::new(&peers, gr_peers, if c.timer { Some(Duration::from_secs(360)) } else { None }).await;
+    let tables = rig.tables.clone();
+    let mut obs = Neighbor::establish(
+        &tables,
+        NeighborParams { remote_addr: IpAddr::V4(Ipv4Addr::new(10, 0, 9, 9)), role: table::PeerRole::Ebgp, local_asn: 65000, local_addr: IpAddr::V4(Ipv4Addr::new(10, 0, 0, 254)), confederation_id: 0, cluster_id: None, families: FAMS.to_vec(), effective_max: 1, export_policy: None },
+    )
+    .await;
+    let _ = pump(&mut obs).await;
+    let sources: Vec<Arc<table::Source>> = (0..4).map(|p| Arc::new(table::Source::new(paddr(p), IpAddr::V4(Ipv4Addr::new(10, 0, 0, 254)), 65100 + p as u32, 65000, Ipv4Addr::new(1, 1, 1, p + 1), table::PeerRole::Ebgp))).collect();
+    let probe_src = Arc::new(table::Source::new(paddr(20), IpAddr::V4(Ipv4Addr::new(10, 0, 0, 254)), 65150, 65000, Ipv4Addr::new(1, 1, 1, 21), table::PeerRole::Ebgp));
+    let attr = Arc::new(AttrSpec { origin: Some(0), as_path: Some(vec![]), ..Default::default() }.build());
+
+    // model (as in `check`)
+    let mut blockers: Vec<BTreeSet<usize>> = vec![BTreeSet::new(); 3];
+    for (p, s) in cfg.iter().enumerate() {
+        for f in s {
+            blockers[*f].insert(p);
+        }
+    }
+    let mut may: Vec<BTreeSet<usize>> = vec![BTreeSet::new(); 3];
+    let mut done_once: BTreeSet<(usize, usize)> = BTreeSet::new();
+    let mut released: BTreeMap<usize, usize> = BTreeMap::new();
+    let mut is_released = [false; 3];
+    let mut timer_fired = false;
+    let mut removal_mechanisms: Vec<BTreeSet<&'static str>> = vec![BTreeSet::new(); 3];
+    let mut completed_seen = false;
+    let mut up = [false; 4];
+    let mut owes: Vec<BTreeSet<usize>> = vec![BTreeSet::new(); 4];
+    let mut info = CaseInfo::trivial();
+    let mut released_with_routes = false;
+
+    for (i, ev) in c.evs.iter().enumerate() {
+        let step = i + 1;
+        match ev {
+            Ev::Established { peer, fams } => {
+                let p = *peer as usize % 4;
+                up[p] = true;
+                let s: BTreeSet<usize> = if p < npeer { (0..3).filter(|i| fams & (1 << i) != 0 && cfg[p].contains(i)).collect() } else { BTreeSet::new() };
+                owes[p] = s.clone();
+                rig.established(p, s.iter().map(|i| FAMS[*i]).collect()).await;
+                if p < npeer && !cfg[p].is_empty() && !completed_seen {
+                    for f in 0..3 {
+                        if s.contains(&f) {
+                            if !released.contains_key(&f) && deferred.contains(&f) && !blockers[f].contains(&p) && done_once.contains(&(p, f)) {
+                                may[f].insert(p);
+                            }
+                        } else {
+                            may[f].remove(&p);
+                            if blockers[f].remove(&p) {
+                                done_once.insert((p, f));
+                                removal_mechanisms[f].insert("re-established-without");
+                            }
+                        }
+                    }
+                }
+            }
+            Ev::Eor { peer, fam } => {
+                let p = *peer as usize % 4;
+                let f = *fam as usize % 3;
+                if !up[p] {
+                    continue;
+                }
+                rig.eor(p, FAMS[f]).await;
+                may[f].remove(&p);
+                owes[p].remove(&f);
+                if blockers[f].remove(&p) {
+                    done_once.insert((p, f));
+                    removal_mechanisms[f].insert("eor");
+                }
+            }
+            Ev::Withdrawn { peer } => {
+                let p = *peer as usize % 4;
+                up[p] = false;
+                owes[p].clear();
+                rig.withdrawn(p).await;
+                for f in 0..3 {
+                    may[f].remove(&p);
+                    if blockers[f].remove(&p) {
+                        done_once.insert((p, f));
+                        removal_mechanisms[f].insert("withdrawn");
+                    }
+                }
+            }
+            Ev::TimerExpired => {
+                let (_, armed) = rig.state().await;
+                if !armed || timer_fired {
+                    continue;
+                }
+                timer_fired = true;
+                tokio::time::advance(Duration::from_secs(361)).await;
+                for _ in 0..16 {
+                    tokio::task::yield_now().await;
+                }
+                for f in 0..3 {
+                    if !blockers[f].is_empty() {
+                        removal_mechanisms[f].insert("timer");
+                    }
+                }
+            }
+            Ev::Insert { fam, prefix, peer } => {
+                let f = *fam as usize % 3;
+                let _ = tables.insert_route(sources[*peer as usize % 4].clone(), FAMS[f], packet::PathNlri { path_id: 0, nlri: net_of(f, *prefix) }, Some(nexthop(0)), attr.clone(), None, step as u32);
+            }
+            Ev::Remove { fam, prefix, peer } => {
+                let f = *fam as usize % 3;
+                tables.remove_route(sources[*peer as usize % 4].clone(), FAMS[f], packet::PathNlri { path_id: 0, nlri: net_of(f, *prefix) }, None, step as u32);
+            }
+        }
+        // what the neighbour is sent because of this event
+        let (reach, _unreach) = pump(&mut obs).await;
+        // is each deferred family still held?
+        let before: BTreeMap<usize, usize> = released.clone();
+        for f in deferred.iter().copied() {
+            let net = probe_net(f);
+            let ins = tables.insert_route(probe_src.clone(), FAMS[f], packet::PathNlri { path_id: 0, nlri: net.clone() }, Some(nexthop(0)), attr.clone(), None, 0);
+            let d0 = obs.delivered;
+            let (r, _) = pump(&mut obs).await;
+            if std::env::var("VERIF_DEBUG").is_ok() {
+                eprintln!("  insert -> {ins}, delivered {}", obs.delivered - d0);
+            }
+            let now = r.contains_key(&(f, net.to_string()));
+            if std::env::var("VERIF_DEBUG").is_ok() {
+                eprintln!("step {step} fam {f} probe reach={r:?} event-reach={reach:?}");
+            }
+            tables.remove_route(probe_src.clone(), FAMS[f], packet::PathNlri { path_id: 0, nlri: net }, None, 0);
+            let _ = pump(&mut obs).await;
+            let announced: BTreeMap<String, usize> = reach.iter().filter(|((ff, _), _)| *ff == f).map(|((_, n), k)| (n.clone(), *k)).collect();
+            if now && !is_released[f] {
+                *released.entry(f).or_default() += 1;
+                // the releasing step announces every prefix present, once
+                let present: BTreeSet<String> = tables.collect_loc_rib_paths(FAMS[f]).iter().map(|c| c.net.to_string()).collect();
+                if let Some((n, k)) = announced.iter().find(|(_, k)| **k > 1) {
+                    return Err(Failure::new("release-duplicate", format!("step {step} {ev:?}: release of {:?} announces {n} {k} times", FAMS[f])).with("event", ev_name(ev)));
+                }
+                let got: BTreeSet<String> = announced.keys().cloned().collect();
+                if got != present {
+                    return Err(Failure::new("release-incomplete", format!("step {step} {ev:?}: release of {:?} announced {got:?} to the neighbour, the prefixes present are {present:?}", FAMS[f])).with("event", ev_name(ev)));
+                }
+                if !present.is_empty() {
+                    released_with_routes = true;
+                }
+            } else if !now && is_released[f] {
+                return Err(Failure::new("held-again", format!("step {step} {ev:?}: family {:?} had been released and is held back again", FAMS[f])).with("event", ev_name(ev)));
+            } else if !now && !announced.is_empty() {
+                return Err(Failure::new("announced-while-held", format!("step {step} {ev:?}: held family {:?} announced {announced:?} to the neighbour", FAMS[f])).with("op", ev_name(ev)));
+            }
+            is_released[f] = now;
+        }
+
+        // ---- oracle (as in `check`) -------------------------------------------
+        for f in deferred.iter().copied() {
+            let n = released.get(&f).copied().unwrap_or(0);
+            let newly = n == 1 && before.get(&f).copied().unwrap_or(0) == 0;
+            if newly && !blockers[f].is_empty() && !timer_fired {
+                return Err(Failure::new("released-early", format!("step {step} {ev:?}: family {:?} released while peers {:?} still owe an End-of-RIB for it and the timer has not fired", FAMS[f], blockers[f])).with("event", ev_name(ev)));
+            }
+            if n == 0 && ((blockers[f].is_empty() && may[f].is_empty()) || timer_fired) {
+                return Err(Failure::new("stuck-deferring", format!("step {step} {ev:?}: family {:?} is still held although no peer is pending for it (timer fired: {timer_fired})", FAMS[f])).with("event", ev_name(ev)).with("timer_fired", timer_fired));
+            }
+        }
+        let all_released = deferred.iter().all(|f| released.get(f).copied().unwrap_or(0) >= 1);
+        let nobody_owes = owes.iter().all(|o| o.iter().all(|f| !deferred.contains(f)));
+        let (restarting, _) = rig.state().await;
+        let completed = !restarting;
+        if !deferred.is_empty() && ((completed && !all_released) || (!completed && all_released && (nobody_owes || timer_fired))) {
+            return Err(Failure::new("completed-flag", format!("step {step} {ev:?}: restarting state cleared = {completed}, but all deferred families released = {all_released} (some peer still owes an EOR: {})", !nobody_owes)).with("event", ev_name(ev)));
+        }
+        if completed {
+            completed_seen = true;
+        }
+    }
+    for f in deferred.iter() {
+        let shared = cfg.iter().filter(|s| s.contains(f)).count() >= 2;
+        if shared && removal_mechanisms[*f].len() >= 2 {
+            info.nontrivial = true;
+        }
+    }
+    Ok(info.class_if(completed_seen, "glue/completed").class_if(timer_fired, "glue/timer-fired").class_if(released_with_routes, "glue/released-with-held-routes"))
 }
